@@ -7,6 +7,8 @@ package main
 import (
 	"bytes"
 	"fmt"
+
+	kio "github.com/flanglet/kanzi-go/v2/io"
 )
 
 var c05Oracles = []string{"wrong-bytes", "data-beyond-failed-block", "failure-not-reported", "error-on-valid-stream", "short-output", "no-eof", "deadlock", "livelock", "panic-escaped"}
@@ -22,10 +24,12 @@ type decFreeCase struct {
 	RB      int    `json:"read_buf"`
 	Bad     int    `json:"bad_block"` // 0 = valid
 	Kind    string `json:"bad_kind"`
+	From    int    `json:"from,omitempty"` // block range (0,0 = whole stream)
+	To      int    `json:"to,omitempty"`
 }
 
 func (d decFreeCase) String() string {
-	return fmt.Sprintf("%s|%d|%d|%d|%d|%s", d.P, d.Len, d.DecJobs, d.RB, d.Bad, d.Kind)
+	return fmt.Sprintf("%s|%d|%d|%d|%d|%s|%d|%d", d.P, d.Len, d.DecJobs, d.RB, d.Bad, d.Kind, d.From, d.To)
 }
 
 var famDecFree = NewFamily("C05.free", func(d decFreeCase) (*Fail, bool) {
@@ -45,8 +49,24 @@ var famDecFree = NewFamily("C05.free", func(d decFreeCase) (*Fail, bool) {
 		}
 		limit = (d.Bad - 1) * int(d.P.Block)
 	}
-	res := decompress(stream, d.DecJobs, nil, d.RB)
+	var res readResult
 	jc := jobsClass(d.DecJobs)
+	if d.From > 0 {
+		// partial decode: the slice delivered must not depend on the job count either
+		B := int(d.P.Block)
+		lo, hi := min((d.From-1)*B, len(data)), min((d.To-1)*B, len(data))
+		r, err := kio.NewReaderWithCtx(newSrc(stream), map[string]any{"jobs": d.DecJobs, "from": d.From, "to": d.To})
+		if err != nil {
+			return failf("harness-range", "%v", err), false
+		}
+		res = drain(r, d.RB, 2)
+		r.Close()
+		if res.Err != nil || !res.EOF || !bytes.Equal(res.Out, data[lo:hi]) {
+			return failf(fmt.Sprintf("range-output-depends-on-jobs free jobs=%s", jc), "%s: blocks [%d,%d) with %d jobs: err=%v, %d bytes (want %d), first difference %d", d, d.From, d.To, d.DecJobs, res.Err, len(res.Out), hi-lo, firstDiff(res.Out, data[lo:hi])), true
+		}
+		return nil, d.DecJobs > 1
+	}
+	res = decompress(stream, d.DecJobs, nil, d.RB)
 	if !isPrefix(res.Out, data) {
 		return failf(fmt.Sprintf("wrong-bytes free jobs=%s bad=%s", jc, d.Kind), "bytes returned are not a prefix of the original (%s): %d returned, first difference at %d, err=%v", d, len(res.Out), firstDiff(res.Out, data[:min(len(data), len(res.Out))]), res.Err), true
 	}
@@ -132,6 +152,11 @@ func init() {
 									continue
 								}
 								emit(decFreeCase{P: Params{cd[0], cd[1], B, 3, ck, -1, false}, Len: n, DecJobs: dj, RB: rb})
+								if rb != 1 && nb >= 3 {
+									for _, ft := range [][2]int{{2, nb + 1}, {3, nb}, {2, 4}, {nb, nb + 2}, {nb/2 + 1, nb + 1}} {
+										emit(decFreeCase{P: Params{cd[0], cd[1], B, 3, ck, -1, false}, Len: n, DecJobs: dj, RB: rb, From: ft[0], To: ft[1]})
+									}
+								}
 								if ck == 0 {
 									continue
 								}
